@@ -1,3 +1,196 @@
-/-! # C15 — property theorems (stub: nothing stated yet) -/
+import SR.Proofs.ActorAdapters
+import SR.Proofs.ActorActions
+/-!
+# C15 — actor adapters are transparent to the actor they wrap
+
+Property theorems only. Model: `SR/Actor/Adapters.lean` — `Actor.wrap` is the one shape all four adapters of the
+code have (untag the state, run the wrapped handler with a fresh `Out`, append it, re-tag the state if it came
+back `Cow::Owned`); `wrapL`/`wrapR` = `Choice::L/R` in `Choice<A1,A2>`, `wrapOnly` = `Choice<A,Never>`,
+`serverOf` = the `Server` arms of `RegisterActor` / `WORegisterActor`; `scripted` = `impl Actor for Vec<(Id,Msg)>`.
+`Transparent tag a b`: for EVERY event (start, message, timeout, random choice) `b` on the tagged state gets
+the same arguments to `a` and returns `a`'s state change re-tagged and `a`'s commands unchanged. The theorems
+quantify over all wrapped actors (any handler functions), all nestings, all systems and all executions.
+-/
 namespace SR.C15
+open SR SR.Actor
+
+variable {σ σ' σ'' η : Type}
+
+/-- **Handlers**: each adapter forwards start, message, timeout and random-choice events unchanged and
+returns the wrapped actor's result unchanged (state re-tagged). -/
+theorem C15_handlers (a : Actor σ) :
+    Transparent (Sum.inl : σ → σ ⊕ σ') a a.wrapL ∧
+    (∀ b : Actor σ', Transparent (Sum.inr : σ' → σ ⊕ σ') b b.wrapR) ∧
+    Transparent (Sum.inl : σ → σ ⊕ Empty) a a.wrapOnly ∧
+    Transparent RegSt.server a a.serverOf :=
+  ⟨transparent_wrap _ _ _ a (fun _ => rfl), fun b => transparent_wrap _ _ _ b (fun _ => rfl),
+   transparent_wrap _ _ _ a (fun _ => rfl), transparent_wrap _ _ _ a (fun _ => rfl)⟩
+
+/-- the general form: any adapter of the common shape whose `untag` inverts its `tag` -/
+theorem C15_handlers_wrap (tag : σ → σ') (untag : σ' → Option σ) (miss : HRes σ') (a : Actor σ)
+    (h : ∀ s, untag (tag s) = some s) : Transparent tag a (a.wrap tag untag miss) :=
+  transparent_wrap tag untag miss a h
+
+/-- **Nesting**: transparency composes, so `Choice` in any position and any nesting with the register adapters
+is transparent (e.g. position 2 of `choice![A,B,C]` is `wrapR ∘ wrapR ∘ wrapOnly`). -/
+theorem C15_nest {t1 : σ → σ'} {t2 : σ' → σ''} {a : Actor σ} {b : Actor σ'} {c : Actor σ''}
+    (h1 : Transparent t1 a b) (h2 : Transparent t2 b c) : Transparent (t2 ∘ t1) a c :=
+  transparent_comp h1 h2
+
+/-- an instance: a server under `RegisterActor::Server` in position 1 of a three-way `Choice` -/
+theorem C15_nest_example (a : Actor σ) :
+    Transparent (fun s => (Sum.inr (Sum.inl (RegSt.server s)) : σ' ⊕ (RegSt σ ⊕ σ''))) a
+      (a.serverOf.wrapL.wrapR) :=
+  C15_nest (C15_nest (C15_handlers (σ' := Empty) a).2.2.2 (C15_handlers (σ' := σ'') a.serverOf).1)
+    (transparent_wrap Sum.inr Sum.getRight? .panic _ (fun _ => rfl))
+
+/-- **Step**: in a system whose actors are wrapped (each with its own tag), every action from a lifted state
+does exactly what it does in the unwrapped system, lifted — including being ignored and panicking. -/
+theorem C15_step {tag : Nat → σ → σ'} {sys : ActorSys σ η} {sys' : ActorSys σ' η} (hw : SysWrapped tag sys sys')
+    (st : St σ η) (a : Action) :
+    step sys' (st.lift tag) a = (step sys st a).map (St.lift tag) ∧
+    actions sys' (st.lift tag) = actions sys st :=
+  ⟨step_lift hw st a, actions_lift hw st⟩
+
+/-- wrapping every actor of a system with adapters of the common shape gives a wrapped system -/
+theorem C15_wrapped_system (tag : Nat → σ → σ') (untag : Nat → σ' → Option σ) (miss : Nat → HRes σ')
+    (sys : ActorSys σ η) (h : ∀ i s, untag i (tag i s) = some s) :
+    SysWrapped tag sys (sys.mapActors (fun i a => a.wrap (tag i) (untag i) (miss i))) :=
+  sysWrapped_mapActors tag sys _ (fun i => transparent_wrap _ _ _ _ (h i))
+
+/-- **Isomorphism**: `lift` maps the reachable states of the unwrapped system one-to-one onto the reachable
+states of the wrapped system, and commutes with initial states, enabled actions and steps (`C15_step`). -/
+theorem C15_iso {tag : Nat → σ → σ'} {sys : ActorSys σ η} {sys' : ActorSys σ' η} (hw : SysWrapped tag sys sys')
+    (inB : St σ η → Bool) (inB' : St σ' η → Bool) (hB : ∀ st, inB' (st.lift tag) = inB st)
+    (hinj : ∀ i s t, tag i s = tag i t → s = t) :
+    (∀ st', (sys'.toSys inB').Reach st' ↔ ∃ st, (sys.toSys inB).Reach st ∧ st' = st.lift tag) ∧
+    (∀ a b : St σ η, a.lift tag = b.lift tag → a = b) := by
+  refine ⟨fun st' => ⟨?_, ?_⟩, lift_injective hinj⟩
+  · intro h
+    induction h with
+    | init hi =>
+      simp only [Sys.initB, ActorSys.toSys, init_eq_specInit, List.mem_filter, Option.toList,
+        List.mem_singleton] at hi
+      refine ⟨specInit sys, Sys.Reach.init ?_, by rw [hi.1, specInit_lift hw]⟩
+      simp only [Sys.initB, ActorSys.toSys, init_eq_specInit, List.mem_filter, Option.toList, List.mem_singleton,
+        true_and]
+      rw [← hB, ← specInit_lift hw, ← hi.1]; exact hi.2
+    | @step s' t' _ hs ih =>
+      obtain ⟨s, hr, rfl⟩ := ih
+      obtain ⟨⟨a, hmem, ha⟩, hb⟩ := Sys.mem_succB.1 hs
+      have hst : step sys' (s.lift tag) a = .next t' := toOption_eq_some.1 ha
+      rw [step_lift hw] at hst
+      cases hs0 : step sys s a with
+      | panic => rw [hs0] at hst; cases hst
+      | ignored => rw [hs0] at hst; cases hst
+      | next t =>
+        rw [hs0] at hst
+        simp only [Outcome.map, Outcome.next.injEq] at hst
+        subst hst
+        refine ⟨t, Sys.Reach.step hr (Sys.mem_succB.2 ⟨⟨a, ?_, ?_⟩, ?_⟩), rfl⟩
+        · have : a ∈ actions sys' (s.lift tag) := hmem
+          rwa [actions_lift hw] at this
+        · exact toOption_eq_some.2 hs0
+        · have : inB' (t.lift tag) = true := hb
+          rwa [hB] at this
+  · rintro ⟨st, hr, rfl⟩
+    induction hr with
+    | init hi =>
+      simp only [Sys.initB, ActorSys.toSys, init_eq_specInit, List.mem_filter, Option.toList,
+        List.mem_singleton] at hi
+      apply Sys.Reach.init
+      simp only [Sys.initB, ActorSys.toSys, init_eq_specInit, List.mem_filter, Option.toList, List.mem_singleton]
+      rw [hi.1]
+      exact ⟨(specInit_lift hw).symm, by rw [hB, ← hi.1]; exact hi.2⟩
+    | @step s t _ hs ih =>
+      obtain ⟨⟨a, hmem, ha⟩, hb⟩ := Sys.mem_succB.1 hs
+      have hst : step sys s a = .next t := toOption_eq_some.1 ha
+      refine Sys.Reach.step ih (Sys.mem_succB.2 ⟨⟨a, ?_, ?_⟩, ?_⟩)
+      · show a ∈ actions sys' (s.lift tag)
+        rw [actions_lift hw]; exact hmem
+      · apply toOption_eq_some.2
+        rw [step_lift hw, hst]; rfl
+      · show inB' (t.lift tag) = true
+        rw [hB]; exact hb
+
+/-! ## the scripted client -/
+
+/-- run the scripted client: `on_start`, then one `on_msg` per received message `(src, msg)`; returns the final
+state and all commands emitted, in order -/
+def runClient (script : List (Nat × Nat)) (id : Nat) (msgs : List (Nat × Nat)) : Nat × List Cmd :=
+  msgs.foldl (fun (acc : Nat × List Cmd) sm =>
+    match (scripted script).msg id acc.1 sm.1 sm.2 with
+    | .ok ns cmds => (ns.getD acc.1, acc.2 ++ cmds)
+    | .panic => acc) ((scripted script).start id)
+
+/-- **Scripted client**: after `k` received messages (whatever they are and whoever sent them) the client has
+sent exactly the first `min (k+1) len` entries of its script, in order, one per event, and nothing else; its
+state is that number. Its timeout and random handlers do nothing. -/
+theorem C15_vec_client (script : List (Nat × Nat)) (id : Nat) (msgs : List (Nat × Nat)) :
+    runClient script id msgs =
+      (min (msgs.length + 1) script.length,
+       (script.take (min (msgs.length + 1) script.length)).map (fun p => Cmd.send p.1 p.2)) ∧
+    (∀ s t, (scripted script).timeout id s t = .ok none []) ∧
+    (∀ s r, (scripted script).random id s r = .ok none []) := by
+  refine ⟨?_, fun _ _ => rfl, fun _ _ => rfl⟩
+  have key : ∀ (msgs : List (Nat × Nat)) (k : Nat),
+      msgs.foldl (fun (acc : Nat × List Cmd) sm =>
+        match (scripted script).msg id acc.1 sm.1 sm.2 with
+        | .ok ns cmds => (ns.getD acc.1, acc.2 ++ cmds)
+        | .panic => acc)
+        (min k script.length, (script.take (min k script.length)).map (fun p => Cmd.send p.1 p.2)) =
+      (min (k + msgs.length) script.length,
+       (script.take (min (k + msgs.length) script.length)).map (fun p => Cmd.send p.1 p.2)) := by
+    intro msgs
+    induction msgs with
+    | nil => intro k; rfl
+    | cons m ms ih =>
+      intro k
+      rw [List.foldl_cons]
+      have hstep : (match (scripted script).msg id (min k script.length) m.1 m.2 with
+          | .ok ns cmds => (ns.getD (min k script.length),
+              (script.take (min k script.length)).map (fun p => Cmd.send p.1 p.2) ++ cmds)
+          | .panic => (min k script.length, (script.take (min k script.length)).map (fun p => Cmd.send p.1 p.2))) =
+          (min (k + 1) script.length, (script.take (min (k + 1) script.length)).map (fun p => Cmd.send p.1 p.2)) := by
+        simp only [scripted]
+        by_cases hlt : k < script.length
+        · have h1 : min k script.length = k := by omega
+          have h2 : min (k + 1) script.length = k + 1 := by omega
+          rw [h1, h2, List.getElem?_eq_getElem hlt]
+          simp only [Option.getD_some, Prod.mk.injEq, true_and]
+          simp only [List.map_take, List.append_cancel_left_eq]
+          rw [List.take_add_one]
+          simp [hlt]
+        · have h1 : min k script.length = script.length := by omega
+          have h2 : min (k + 1) script.length = script.length := by omega
+          rw [h1, h2, List.getElem?_eq_none (Nat.le_refl _)]
+          simp
+      rw [hstep, ih (k + 1)]
+      simp only [List.length_cons]
+      have : k + 1 + ms.length = k + (ms.length + 1) := by omega
+      rw [this]
+  unfold runClient
+  have hstart : (scripted script).start id =
+      (min 1 script.length, (script.take (min 1 script.length)).map (fun p => Cmd.send p.1 p.2)) := by
+    cases script with
+    | nil => simp [scripted]
+    | cons p ps => simp [scripted]
+  rw [hstart, key msgs 1]
+  have : 1 + msgs.length = msgs.length + 1 := by omega
+  rw [this]
+
+/-! ## the hypotheses are satisfiable -/
+
+/-- an actor that uses every kind of event -/
+def exActor : Actor Nat where
+  start _ := (0, [.setTimer 1, .chooseRandom 0 [1, 2]])
+  msg _ s src m := .ok (some (s + m)) [.send src m]
+  timeout _ s t := .ok (some (s + 10 * t)) [.setTimer t]
+  random _ s r := .ok (some (s + 100 * r)) []
+
+example : (exActor.wrapL (σ' := Nat)).random 0 (Sum.inl 5) 2 = .ok (some (Sum.inl 205)) [] := rfl
+example : (exActor.wrapL (σ' := Nat)).msg 0 (Sum.inr 5) 1 2 = .panic := rfl
+example : exActor.serverOf.timeout 0 (RegSt.client none 0) 1 = .ok none [] := rfl
+example : runClient [(1, 7), (1, 8)] 0 [(1, 0), (1, 0), (1, 0)] = (2, [.send 1 7, .send 1 8]) := by decide
+
 end SR.C15
